@@ -26,6 +26,9 @@ import itertools
 import json
 import os
 import pickle
+from decimal import Decimal
+
+import numpy as np
 
 from pydantic import ValidationError
 
@@ -86,12 +89,12 @@ VALUES = {
     "1-ulp": 1.0 - 2.0 ** -53, "5e-324": 5e-324, "-5e-324": -5e-324, "1e308": 1e308, "-1e308": -1e308,
     "int0": 0, "int1": 1, "int2": 2, "int-1": -1,
     # clip times only
-    "-1": -1.0,
+    "-1": -1.0, "9": 9.0, "10": 10.0,  # 9 < 10 as numbers, "9" > "10" as text
 }
 VAL_QUICK = ["0.5", "0", "1", "-0.0", "-1e-9", "1+ulp", "2", "nan", "+inf", "-inf"]
 VAL_THOROUGH = VAL_QUICK + ["1-ulp", "5e-324", "-5e-324", "1e308", "-1e308", "int0", "int1", "int2", "int-1"]
-CLIP_QUICK = ["0", "1", "1+ulp", "2"]
-CLIP_THOROUGH = ["0", "1", "1+ulp", "2", "-0.0", "0.5", "1-ulp", "-1", "int0", "int1", "int2", "1e308"]
+CLIP_QUICK = ["0", "1", "1+ulp", "2", "9", "10"]
+CLIP_THOROUGH = ["0", "1", "1+ulp", "2", "9", "10", "-0.0", "0.5", "1-ulp", "-1", "int0", "int1", "int2", "1e308"]
 NONFINITE = ("nan", "+inf", "-inf")
 BORING = ("0.5", "none")
 
@@ -711,6 +714,23 @@ def run_clip(case):
     text = json.dumps(dj)
     obs, obj = observe(lambda: data.Clip.model_validate_json(text))
     P.add("json", obs, True, rb(after, obj))
+    # the same two numbers in other representations the float fields accept: decimal text (also quoted in JSON), Decimal, a mix
+    # of float and text, numpy float32 (where exact)
+    def mk(a, b):
+        return lambda: data.Clip(uuid=U("clip0"), recording=w.rec, start_time=a, end_time=b)
+
+    ts, te_ = repr(float(s)), repr(float(e))
+    for label, a, b in (("ctor:text", ts, te_), ("ctor:float+text", float(s), te_), ("ctor:text+float", ts, float(e)),
+                        ("ctor:decimal", Decimal(ts), Decimal(te_))):
+        obs, obj = observe(mk(a, b))
+        P.add(label, obs, True, rb(after, obj))
+    if float(np.float32(s)) == float(s) and float(np.float32(e)) == float(e):
+        obs, obj = observe(mk(np.float32(s), np.float32(e)))
+        P.add("ctor:float32", obs, True, rb(after, obj))
+    dq = dict(dj, start_time=ts, end_time=te_)
+    textq = json.dumps(dq)
+    obs, obj = observe(lambda: data.Clip.model_validate_json(textq))
+    P.add("json:quoted", obs, True, rb(after, obj))
     for kind in CLIP_CARRIERS:
         doc, found = edit_entry(w.carrier_docs[kind], "clips", str(U("clip0")), start_time=s, end_time=e)
         obs, obj = aoef_load(doc)
